@@ -41,8 +41,14 @@ class SolveGroupSwizzlerPartsel(object):
             
         if rs.rand_order_l is not None:
             # Perform an ordered randomization
+            ordered_s = set()
             for ro_l in rs.rand_order_l:
                 swizzled_field |= self.swizzle_field_l(ro_l, rs, bound_m, btor)
+                ordered_s.update(ro_l)
+            # Fields of this randset that no ordering statement mentions
+            # are randomized last
+            rest_l = [f for f in rs.rand_fields() if f not in ordered_s]
+            swizzled_field |= self.swizzle_field_l(rest_l, rs, bound_m, btor)
         else:
             swizzled_field |= self.swizzle_field_l(rs.rand_fields(), rs, bound_m, btor)
                 
